@@ -61,7 +61,7 @@ def run_harness(ctx, exe, lines, timeout=150, max_restarts=30, args=()):
             break
         kind = "TIMEOUT" if rc in (124, -14, 142) else "CRASH"       # 124: batch limit, SIGALRM: the harness' limit per case
         outs[k] = kind
-        incidents.append((k, kind, sanitizer_summary(err)))
+        incidents.append((k, kind, "exit=%s %s" % (rc, sanitizer_summary(err))))
         start = k + 1
         restarts += 1
         if restarts > max_restarts:
